@@ -352,13 +352,19 @@ def run(pid, tier, replay, start):
         nolock["ran"] = True
         if code == 1:
             rep.violations += 1
+        # the same cells in the no_std feature set that does have a mutex (spin-lock): every one of
+        # them can be produced there, so every one must construct
+        vcommon.build("nostd", ["c14n"])
+        code, out = vcommon.run_bin("nostd", "c14n", tier, [], part_out=os.path.join(vcommon.TARGET, "parts", "C14-nostd.json"))
+        if code == 1:
+            rep.violations += 1
     kinds = {}
     for i in kept:
         kinds[i.meta["kind"]] = kinds.get(i.meta["kind"], 0) + 1
     cov = {
-        "evaluations": len(kept) + ts["words"] + (1 if nolock["ran"] else 0),
+        "evaluations": len(kept) + ts["words"] + (2 if nolock["ran"] else 0),
         "distinct_nontrivial": len(set(i.key for i in kept)) + ts["words"],
-        "rule": "order: every flat tuple arity 2..16, every nesting tree with <= 7 (quick: 5) leaves whose inner nodes have >= 2 children, unit elements at every position, every arity nested on either side of another tuple; rejection: ordered+unordered clauses of one method at every pair of positions for every arity 2..16 (quick: arities 2, 3, 16 and the end positions of the others), both orders, and an empty stub at every position of arities 1..6; compile time: every builder word up to the length bound against the reference automaton; one cell for the feature set without mutex; all instances are non-trivial and distinct by construction",
+        "rule": "order: every flat tuple arity 2..16, every nesting tree with <= 7 (quick: 5) leaves whose inner nodes have >= 2 children, unit elements at every position, every arity nested on either side of another tuple; rejection: ordered+unordered clauses of one method at every pair of positions for every arity 2..16 (quick: arities 2, 3, 16 and the end positions of the others), both orders, and an empty stub at every position of arities 1..6; compile time: every builder word up to the length bound against the reference automaton; the construction cells in the feature set without mutex (single-use returns refused) and in the no_std feature set with the spin-lock mutex (everything constructs); all instances are non-trivial and distinct by construction",
         "samples": [{"shape": kept[3].key, "code": kept[3].code[:900]}],
         "exhaustive": True,
         "instances_by_kind": kinds,
